@@ -369,3 +369,68 @@ Proof.
   destruct (H ops Hops) as [_ H2]. rewrite H2. rewrite (pl_cmp M c L). reflexivity.
 Qed.
 End Independent.
+
+(* ------------------------------------------------------------------------------------------ *)
+(* 4. Instances for the two functors                                                            *)
+(* ------------------------------------------------------------------------------------------ *)
+
+(* every additive class: _prepare_for_merge_state is the inherited no-op *)
+Theorem add_PrepLaws (S : AddSpec) (c : acfg S) : PrepLaws (add_metric S) c.
+Proof. apply PrepLaws_of_id. reflexivity. Qed.
+
+(* every cache class: prep collapses the list of chunks into one chunk.  The congruence is "same
+   samples in the same order" (the abstraction of Cache.cache_alg). *)
+Section CacheInst.
+Variable S : CacheSpec.
+Variable c : ccfg S.
+Let Mc := cache_metric S.
+Definition cache_R (s t : list (cchunk S)) : Prop :=
+  flat_map (csamples S c) s = flat_map (csamples S c) t.
+
+Lemma cache_R_sources : forall ms ns, Forall2 cache_R ms ns ->
+  map (flat_map (csamples S c)) ms = map (flat_map (csamples S c)) ns.
+Proof. intros ms ns H. induction H as [|m n ms ns Hmn _ IH]; [reflexivity|]. cbn [map]. rewrite Hmn, IH. reflexivity. Qed.
+
+Lemma cache_cong : ObsCong Mc c cache_R.
+Proof.
+  constructor.
+  - intros s. reflexivity.
+  - intros s t b H. unfold cache_R in *. cbn. rewrite !flat_map_app, H. reflexivity.
+  - intros s t ms ns H Hs. unfold cache_R in *. cbn [Mc cache_metric plain mrg].
+    rewrite !cache_merge_flat, H, (cache_R_sources ms ns Hs). reflexivity.
+  - intros s t H. unfold cache_R in *. unfold Mc. rewrite !prep_preserves. exact H.
+  - intros s t H. unfold cache_R in *. cbn. rewrite H. reflexivity.
+  - intros s. unfold cache_R, Mc. apply prep_preserves.
+Qed.
+
+(* torch.cat([x]) = x: needed only for idempotence as an equality of states (the second sync
+   sends the same dict) *)
+Definition cat_single : Prop := forall x, ccat S c [x] = x.
+
+Lemma cache_prep_idem : cat_single -> forall s, prep Mc c (prep Mc c s) = prep Mc c s.
+Proof. intros H s. cbn. destruct s as [|x s]; cbn [is_nil]; [reflexivity|]. rewrite H. reflexivity. Qed.
+
+Theorem cache_PrepLaws : cat_single -> PrepLaws Mc c.
+Proof. intros H. apply (PrepLaws_of_cong Mc c cache_R cache_cong). apply cache_prep_idem. exact H. Qed.
+
+(* without that hypothesis: everything except state-level idempotence *)
+Theorem cache_prep_invisible : forall s,
+  cmp Mc c (prep Mc c s) = cmp Mc c s /\
+  (forall ops, outs Mc c (prep Mc c s) ops = outs Mc c s ops) /\
+  (forall ops, outs Mc c (prep Mc c (prep Mc c s)) ops = outs Mc c (prep Mc c s) ops) /\
+  (forall t l1 l2 ops, outs Mc c (mrg Mc c t (l1 ++ prep Mc c s :: l2)) ops = outs Mc c (mrg Mc c t (l1 ++ s :: l2)) ops).
+Proof.
+  intros s. pose proof cache_cong as HC. split; [|split; [|split]].
+  - apply (oc_cmp Mc c cache_R HC). apply (oc_prep_rel Mc c cache_R HC).
+  - intros ops. apply (cong_outs Mc c cache_R HC). apply (oc_prep_rel Mc c cache_R HC).
+  - intros ops. apply (cong_outs Mc c cache_R HC). apply (oc_prep_rel Mc c cache_R HC).
+  - intros t l1 l2 ops. apply (cong_outs Mc c cache_R HC). apply (oc_mrg Mc c cache_R HC); [apply (oc_refl Mc c cache_R HC)|].
+    apply Forall2_middle; [apply (oc_refl Mc c cache_R HC)|apply (oc_prep_rel Mc c cache_R HC)].
+Qed.
+
+(* all cache specs of the development: ccat = concat, csamples = id *)
+Lemma cat_single_of_injective : (forall x y, csamples S c x = csamples S c y -> x = y) -> cat_single.
+Proof.
+  intros Hinj x. apply Hinj. rewrite csamples_cat. cbn [flat_map]. apply app_nil_r.
+Qed.
+End CacheInst.
